@@ -1207,6 +1207,10 @@ func TestVerifExportRestore(t *testing.T) {
 	scripts := vfLoadScripts(t)
 	tr := vfOpenTrace(t)
 	defer tr.Close()
+	// one service started and stopped before the workers run: go-ipfs-log builds its CBOR codec in a lazily
+	// initialised global without synchronisation (io/cbor.IO); two first uses at the same time leave one of them
+	// with a half-built atlas ("missing an atlas entry ... IdentitySignature")
+	vfXNewWorld(t, 0).close()
 	var wg sync.WaitGroup
 	ch := make(chan vfScript, 16)
 	for k := 0; k < vfEnvInt("VERIF_WORKERS", 6); k++ {
